@@ -61,7 +61,7 @@ TraceInit ==
     /\ now = 0 /\ params = [minDep |-> Zero, base |-> 0, route |-> 0] /\ count = 0
     /\ cfg = [t \in Tuns |-> NoCfg] /\ active = [t \in Tuns |-> FALSE] /\ activeIdx = {}
     /\ seq = [t \in Tuns |-> 0] /\ latest = [t \in Tuns |-> NoLatest] /\ lastInt = [t \in Tuns |-> Never]
-    /\ pkts = [t \in Tuns |-> <<>>] /\ feed = [s \in Sig |-> NoPrice] /\ mode = "ok"
+    /\ pkts = [t \in Tuns |-> <<>>] /\ feed = [s \in Sig |-> NoPrice] /\ mode = "ok" /\ pchg = FALSE
     /\ feeBal = [t \in Tuns |-> 0] /\ bal = [a \in Acct |-> Zero] /\ dep = [t \in Tuns |-> [a \in Acct |-> Zero]]
     /\ totDep = [t \in Tuns |-> Zero] /\ modBal = Zero /\ tssBal = 0 /\ totalFees = 0
     /\ out = "init" /\ ev = NoEv /\ last = [e |-> "Init", who |-> "none", t |-> 0]
@@ -79,7 +79,7 @@ ResetVars(st) ==
     /\ lastInt' = [t \in Tuns |-> Never]
     /\ pkts' = [t \in Tuns |-> <<>>]
     /\ feed' = [s \in Sig |-> st.feed[s]]
-    /\ mode' = st.mode
+    /\ mode' = st.mode /\ pchg' = FALSE
     /\ feeBal' = [t \in Tuns |-> 0]
     /\ bal' = OBal(st)
     /\ dep' = [t \in Tuns |-> [a \in Acct |-> Zero]]
@@ -148,6 +148,7 @@ Sync ==
         /\ params' = LParams(st)
         /\ feed' = [s \in Sig |-> st.feed[s]]                                      \* environment
         /\ mode' = st.mode
+        /\ pchg' = (pchg \/ LParams(st).minDep # params.minDep)     \* ghost: governance changed the minimum deposit
         /\ Bind("count", count, count', OCount(st))
         /\ Bind("cfg", cfg, cfg', OCfg(st))
         /\ Bind("active", active, active', OActive(st))
